@@ -508,6 +508,19 @@ func c18args(c *fw.Ctx, idx int, r *rand.Rand) {
 			}
 			return reflect.ValueOf(strings.Join(p, ","))
 		})
+		// one pointer fewer than there are arguments: an error in every call form, as a reflected function with one
+		// parameter fewer rejects the call
+		vars.SetFunc("JPfew", func(a jet.Arguments) reflect.Value {
+			ptrs := make([]interface{}, a.NumOfArguments()-1)
+			vals := make([]interface{}, len(ptrs))
+			for i := range ptrs {
+				ptrs[i] = &vals[i]
+			}
+			if err := a.ParseInto(ptrs...); err != nil {
+				panic(err)
+			}
+			return reflect.ValueOf(fmt.Sprint("parsed ", vals))
+		})
 		return vars
 	}
 	exec := func(src, fn string) jx.Res {
@@ -549,6 +562,14 @@ func c18args(c *fw.Ctx, idx int, r *rand.Rand) {
 		if gp.Failed() || gp.Out != ref.Out {
 			c.Violation("c18:args:ParseInto:"+kind, "", fmt.Sprintf("%s: ParseInto presents %s, the reflected function receives %q", src, gp, ref.Out))
 			return
+		}
+		if n >= 2 {
+			few, rfew := exec(src, "JPfew"), exec(src, fmt.Sprintf("R%d", n-1))
+			c.Eval(2)
+			if few.Panic != nil || few.Err == nil || rfew.Err == nil {
+				c.Violation("c18:args:ParseInto-with-too-few-pointers:"+kind, "", fmt.Sprintf("%s: ParseInto with %d pointers for %d arguments: %s; a reflected function with %d parameters: %s", src, n-1, n, few, n-1, rfew))
+				return
+			}
 		}
 		wantSet := "0" + strings.Repeat("1", n) + "0"
 		if gs.Failed() || gs.Out != wantSet {
